@@ -30,6 +30,7 @@ var c11Feasible = func() uint64 {
 	}
 	return 1 << 18
 }()
+
 const c11MaxMsg = "max number of expresssions parsed"
 
 type c11Case struct {
